@@ -234,13 +234,63 @@ func (o *Obligation) Query(extra string) string {
 	if n > len(v.defs) {
 		n = len(v.defs)
 	}
+	goal := strings.Join(o.Disj, " ") + " " + extra
+	keep := make([]bool, n)
+	if o.Expect == "sat" {
+		for i := range keep {
+			keep[i] = true
+		}
+	} else {
+		// cone of influence: a definition of a fresh name nobody refers to, or a fact about such names only, is
+		// dropped (fewer premises: sound); unused quantified definitions otherwise cost the solvers minutes
+		rel := map[string]bool{}
+		addSyms := func(t string) {
+			for _, m := range symRe.FindAllString(t, -1) {
+				rel[m] = true
+			}
+		}
+		addSyms(goal)
+		for _, k := range o.ModelK {
+			addSyms(o.Model[k])
+		}
+		for changed := true; changed; {
+			changed = false
+			for i := n - 1; i >= 0; i-- {
+				if keep[i] {
+					continue
+				}
+				d := v.defs[i]
+				if m := defRe.FindStringSubmatch(d); m != nil {
+					if rel[m[1]] {
+						keep[i], changed = true, true
+						addSyms(d)
+					}
+					continue
+				}
+				syms := symRe.FindAllString(d, -1)
+				use := len(syms) == 0
+				for _, sy := range syms {
+					if rel[sy] {
+						use = true
+						break
+					}
+				}
+				if use {
+					keep[i], changed = true, true
+					addSyms(d)
+				}
+			}
+		}
+	}
 	var body strings.Builder
-	for _, d := range v.defs[:n] {
+	for i, d := range v.defs[:n] {
+		if !keep[i] {
+			continue
+		}
 		body.WriteString(d)
 		body.WriteByte('\n')
 	}
 	bodyS := body.String()
-	goal := strings.Join(o.Disj, " ") + " " + extra
 	for _, ax := range v.axioms {
 		use := true
 		for _, sy := range ax.syms {
@@ -282,6 +332,11 @@ func (o *Obligation) Query(extra string) string {
 	}
 	return b.String()
 }
+
+var (
+	symRe = regexp.MustCompile(`[^\s()]+@\d+`)
+	defRe = regexp.MustCompile(`^\(assert \(= ([^\s()]+@\d+) `)
+)
 
 type Solver struct {
 	Name string
